@@ -127,6 +127,25 @@ def run(ctx, prog, res):
     sh = flow.shape(f, 0)
     r5.check(re.search(r"ExtendedTime::add_minutes\(::as_naive\(p1\.event, p2, p3\), p1\.offset\)", sh) is not None and "Neg(" not in sh, {"fn": f.id, "returns": sh}, "C11.R5:add",
              "VariableTime::as_naive is not event.as_naive(ctx, date).add_minutes(self.offset): %s" % sh, lib.where_of(f))
+    # an offset that leaves 00:00..48:00 is cut at an end of that range - a constant - and never replaced by something
+    # that depends on the event (dropping the offset makes a larger offset open later than a smaller one)
+    vt = f
+    m_fb = re.fullmatch(r"Option::(?:unwrap_or|unwrap_or_else|map_or)\((.*)\)", flow.shape(vt, 0, depth=6))
+    fallback = None
+    if m_fb:
+        depth_ = 0
+        inner = m_fb.group(1)
+        for i_, ch in enumerate(inner):
+            if ch in "([{":
+                depth_ += 1
+            elif ch in ")]}":
+                depth_ -= 1
+            elif ch == "," and depth_ == 0:
+                fallback = inner[i_ + 1:].strip()
+        r5.check(fallback is not None and re.fullmatch(r"const:MIDNIGHT_(00|24|48)|ExtendedTime::MIDNIGHT_\d+", fallback) is not None, {"fn": vt.id.split("::")[-1], "offset_out_of_range_gives": fallback}, "C11.R5:cut",
+                 "VariableTime::as_naive answers `%s` when the offset leaves 00:00..48:00: not an end of the range, so the offset is dropped instead of cut (`(sunrise-06:00)-12:00` opens later than `(sunrise-05:00)-12:00`)" % fallback, lib.where_of(vt))
+    else:
+        r5.ok({"fn": "VariableTime::as_naive", "offset_out_of_range": "no fallback form recognised: decided by the `add` obligation only"})
     f = prog.impl_method_one("TimeFilter", "as_naive", self_adt=EVENT)
     sh = flow.shape(f, 0)
     r5.check(re.fullmatch(r"Localize::event_time\(p2\.locale, p3, p1\)", sh) is not None, {"fn": f.id, "returns": sh}, "C11.R5:event", "TimeEvent::as_naive is not ctx.locale.event_time(date, event): %s" % sh, lib.where_of(f))
